@@ -101,6 +101,11 @@ func vfC05(w *vfWorld) {
 	cfg.CSRFPerRequest = t.Bool("c05.perreq")
 	cfg.EncodeState = t.Bool("c05.encode")
 	cfg.Store = vfPick(t, "c05.store", []string{"cookie", "redis"})
+	if cfg.PKCE != "" && t.Prob("c05.force-alias", 200) {
+		// a left-over of the deprecated alias contradicting the configured method: the configured one stays in force
+		other := map[string]string{"S256": "plain", "plain": "S256"}[cfg.PKCE]
+		cfg.Extra = append(cfg.Extra, "--force-code-challenge-method="+other)
+	}
 	cs.PKCE, cs.SkipNonce, cs.PerRequest = cfg.PKCE, cfg.SkipNonce, cfg.CSRFPerRequest
 	idp := w.StartIdP()
 	// what the provider's metadata says about PKCE is advisory: the operator's configured method is what the statement
@@ -266,7 +271,23 @@ func vfC05(w *vfWorld) {
 			}
 		}
 		mark := idp.mark()
+		// a token endpoint in trouble: the first 1-3 token requests of this callback fail (503 / connection reset); whatever
+		// the client libraries retry must still present this login's verifier
+		tokenTrouble := 0
+		if t.Prob("c05.token-trouble", 200) {
+			tokenTrouble = 1 + t.Choice("c05.token-trouble-n", 3)
+			kind := vfPick(t, "c05.token-trouble-kind", []string{"500", "reset-before", "500"})
+			left := tokenTrouble
+			idp.Plan = func(c *vfIdpCall) vfIdpFault {
+				if c.Endpoint == "token:code" && left > 0 {
+					left--
+					return vfIdpFault{Kind: kind}
+				}
+				return vfIdpFault{}
+			}
+		}
 		r := b.GET(rep, l.lg.CallbackTarget(pp))
+		idp.Plan = nil
 		done++
 		scan(r, "callback")
 		ok := vfSessionCookieSet(r, cfg.CookieName)
@@ -292,7 +313,7 @@ func vfC05(w *vfWorld) {
 		switch {
 		case ok && !honest && !cfg.SkipNonce:
 			w.violate("C05", "session-with-foreign-nonce", behaviour, "a session was established although the ID token's nonce behaviour was %q (nonce checking on; %d logins started)", behaviour, len(logins))
-		case !ok && honest:
+		case !ok && honest && tokenTrouble == 0:
 			w.violate("C05", "honest-login-refused", fmt.Sprintf("pkce=%s", cfg.PKCE), "honest completion refused: %d", r.Status)
 		}
 		if ok {
